@@ -885,6 +885,8 @@ class Dims(QualInfer):
             return b
         if isinstance(e.op, (ast.Mult, ast.FloorDiv, ast.Div)) and a is not None and b is not None:
             res = self.new("`%s`" % unparse(e)[:40])
+            if isinstance(e.op, ast.Mult):
+                self.__dict__.setdefault("products", []).append((gen.fi, e, a, b))
             self.pending.append(("arith", "mul" if isinstance(e.op, ast.Mult) else "div", res, a, b, gen.where(e), unparse(e)[:50]))
             return res
         return None
